@@ -137,6 +137,20 @@ MCBytes == {%s}
     for m in [x for x in recs if x.get('kind') == 'mismatch']:
         ctx.violation('C09:rotation:%s:%s' % (m.get('what'), m.get('op', '')), m,
                       'behaviour %s step %s (%s): model and real telemetry directory differ: %s' % (m.get('id'), m.get('step'), m.get('op'), json.dumps(m)[:600]))
+    # ---- 4. unbounded: Apalache discharges the span arithmetic for ALL natural day numbers (optional strengthening) ----
+    if ctx.thorough():
+        import shutil, subprocess, tempfile
+        d = tempfile.mkdtemp(prefix='apa-', dir=ctx.work)
+        shutil.copy(os.path.join(os.path.dirname(os.path.dirname(os.path.abspath(__file__))), 'spec', 'CalendarApa.tla'), d)
+        try:
+            p = subprocess.run(['apalache-mc', 'check', '--init=Init', '--next=Next', '--inv=SpanOK', '--length=0', 'CalendarApa.tla'],
+                               cwd=d, stdout=subprocess.PIPE, stderr=subprocess.STDOUT, text=True, timeout=300)
+            ok = 'EXITCODE: OK' in p.stdout
+            ctx.cov['apalache_span_all_naturals'] = 'proved (NoError)' if ok else 'not proved: ' + p.stdout[-300:]
+            if not ok:
+                ctx.warn('Apalache did not discharge CalendarApa.SpanOK')
+        except Exception as e:      # never decides a verdict
+            ctx.cov['apalache_span_all_naturals'] = 'not run: %s' % e
     ctx.cov['rule'] = ('vectors = every (day, week-end byte) pair of the explored windows x 4 times of day; observations = random instants/contents '
                        'validated by TLC; behaviours = TLC -simulate walks of CalendarRot replayed step by step')
     ctx.cov['distinct_nontrivial'] = len(vectors) + len(behs)
